@@ -63,6 +63,7 @@ type gasOp struct {
 type GasDriver struct {
 	Notary  bool
 	N       int
+	Votes   bool // only the vote-collected decisions (and a deposit to pay from): a small alphabet, searched deeper
 	ops     []gasOp
 	u, s, x *Account
 	wp      *Account
@@ -74,6 +75,20 @@ const (
 	maxDeposit = 9000 * gasUnit
 	candFee    = gasUnit
 )
+
+// NewGasVotesDriver: the ledger without Notary, reduced to the decisions that are collected vote by vote - a cheque
+// voted for by each of the four keys while another decision is pending, late and repeated votes.
+func NewGasVotesDriver(n int) *GasDriver {
+	d := &GasDriver{Notary: false, N: n, Votes: true}
+	d.ops = append(d.ops, gasOp{kind: "deposit", amt: 7, data: "nil", signer: "U"})
+	for k, sg := range []string{"AL", "I1", "I2", "I3"}[:min(n, 4)] {
+		d.ops = append(d.ops, gasOp{kind: "cheque", amt: 3, signer: sg})
+		if k < 2 {
+			d.ops = append(d.ops, gasOp{kind: "setFee", amt: 2, signer: sg})
+		}
+	}
+	return d
+}
 
 func NewGasDriver(notary bool, n int) *GasDriver {
 	d := &GasDriver{Notary: notary, N: n}
